@@ -14,6 +14,10 @@ class KTable:
         if wngrid is not None:
             wngrid_filter = np.where((self.wavenumberGrid >= wngrid.min()) & (
                 self.wavenumberGrid <= wngrid.max()))[0]
+            if not np.array_equal(self.wavenumberGrid.take(wngrid_filter),
+                                  wngrid):
+                # include the native points bracketing the requested range
+                wngrid_filter = self._bracketing_filter(wngrid)
         orig = self.compute_opacity(temperature, pressure, wngrid_filter).reshape(-1, len(self.weights))
 
         if wngrid is None or np.array_equal(self.wavenumberGrid.take(wngrid_filter), wngrid):
